@@ -65,4 +65,9 @@ theorem wf_act {α : Type} (op : Op d α) (t : HT d α) (h : t.WF) : (HT.act op 
   have hn : t.ends = none := h (by cases op <;> exact hc)
   cases op <;> simp [HT.act, retarget, hn]
 
+theorem vsubOne_shapeVec (h w : ℚ) : vsubOne (shapeVec (h, w)) = fun i => if i.val = 0 then h - 1 else w - 1 := by
+  funext i
+  simp only [vsubOne, shapeVec]
+  split <;> rfl
+
 end MenpoModel.C04
